@@ -42,6 +42,9 @@ ASSUMPTIONS = [
     "random draws of Rise / Lime / KernelShap / MuFidelity are made identical across wrappings by "
     "tf.keras.utils.set_random_seed before each run (eager mode when a TorchWrapper takes part, else graph mode); Sobol / "
     "HSIC designs are deterministic samplers",
+    "DEFECT modelled as found (C11_metric_callable_bs_none_refuted): Deletion / Insertion built on a NumPy callable or "
+    "predict_proba object with batch_size=None raise AttributeError (inputs.numpy() on a NumPy array); the check expects "
+    "exactly that and compares the remaining wrappings",
     "TorchWrapper needs eager execution (np.moveaxis on the input): torch cases run with run_functions_eagerly(True), "
     "the previous setting is restored after each case",
 ]
@@ -170,7 +173,8 @@ def gen_same(rng, tier):
     image_only = method in ("Sobol", "Hsic")
     kind = "img" if image_only or rng.random() < 0.65 else "tab"
     if kind == "img":
-        shape = [rng.randint(2, 4), rng.randint(2, 5), rng.choice([1, 3, 2])]
+        # Lime / KernelShap have a default image segmentation only for C in {1, 3} (C12's business, not a wrapping matter)
+        shape = [rng.randint(2, 4), rng.randint(2, 5), rng.choice([1, 3] if method in ("Lime", "KernelShap") else [1, 3, 2])]
         if shape[0] == shape[1]:
             shape[1] += 1
     else:
@@ -566,7 +570,14 @@ def run_same(case):
             model, before = build_wrapping(name, case)
             tf.config.run_functions_eagerly(bool(case["eager"]) or name.startswith("torch"))
             tf.keras.utils.set_random_seed(SEED)
-            out = np.asarray(same_run(model, case, x, t), dtype=np.float64)
+            try:
+                out = np.asarray(same_run(model, case, x, t), dtype=np.float64)
+            except AttributeError as e:
+                if "has no attribute 'numpy'" not in str(e):
+                    raise
+                res["results"][name] = "AttributeError"     # inputs.numpy() on a NumPy array (see coq_term)
+                res["shapes"][name] = None
+                continue
             if not np.all(np.isfinite(out)):
                 res["results"][name] = None        # NaN (HSIC with a zero median, known limitation): nothing to compare
             else:
@@ -677,7 +688,25 @@ def coq_term(case, res):
             return "false"
         return f"c11_oeq ({model}) (Some {core.cqlist(res['values'])})"
     # same
-    names = list(case["wrappings"])
+    # faithful model of the container of the inputs: a metric holds NumPy arrays, so predictions_one_hot_callable fails
+    # (inputs.numpy()) exactly for callables / predict_proba objects under Deletion / Insertion with batch_size=None
+    pre = []
+    names = []
+    for w in case["wrappings"]:
+        failed = res["results"][w] == "AttributeError"
+        if w in ("numpy", "pp", "numpy1d", "pp1d"):
+            cont = "metric_container" if case["method"] in ("Deletion", "Insertion") else "explainer_container"
+            form = 1 if w.endswith("1d") else 0
+            bs = core.copt(None if case["bs"] is None else core.cnat(case["bs"]))
+            pre.append(f"Bool.eqb (match batch_one_hot_callable_on {cont} (c11_pred {core.cnat(form)} {fam.coq_fquad(case['params'])}) "
+                       f"{bs} {core.cqlist2(case['xs'])} {core.cqlist2(case['ts'])} with None => true | Some _ => false end) "
+                       f"{core.cbool(failed)}")
+        elif failed:
+            return "false"
+        if not failed:
+            names.append(w)
+    if len(names) < 2:
+        return "(" + " && ".join(pre or ["true"]) + ")"
     vals = [res["results"][w] for w in names]
     if any(v is None for v in vals):
         if all(v is None for v in vals):
@@ -687,7 +716,7 @@ def coq_term(case, res):
         return "false"
     cmp_ = "c11_close" if case["method"] in ("Rise", "Sobol", "Hsic") else "qlist_eqb"
     ref = core.cqlist(vals[0])
-    parts = [f"{cmp_} {ref} {core.cqlist(v)}" for v in vals[1:]]
+    parts = pre + [f"{cmp_} {ref} {core.cqlist(v)}" for v in vals[1:]]
     if case["method"] == "Occlusion":
         sh = case["shape"]
         if case["kind"] == "tab":
@@ -742,13 +771,14 @@ def explain_failure(case, res, model):
         return dict(clause="scores = sum(pred * targets, -1) per sample for 2-D predictions, 1-D predictions of a single-output "
                            "model and squeezed predictions, whatever the batch size", implementation=res, model=model)
     diff = {}
-    names = list(case["wrappings"])
+    names = [w for w in case["wrappings"] if isinstance(res["results"][w], list)]
     for w in names[1:]:
         a, b = res["results"][names[0]], res["results"][w]
         if a != b:
             diff[f"{names[0]} vs {w}"] = dict(first=a[:8] if a else a, second=b[:8] if b else b)
-    return dict(clause=f"{case['method']} gives the same result for every wrapping of the same function (same seeds)",
-                wrappings_that_differ=diff)
+    return dict(clause=f"{case['method']} gives the same result for every wrapping of the same function (same seeds); callables "
+                       "under Deletion / Insertion with batch_size=None raise AttributeError (known defect, modelled)",
+                wrappings_that_differ=diff, raised={w: r for w, r in res["results"].items() if isinstance(r, str)})
 
 
 def shrink(case):
